@@ -87,6 +87,19 @@ func (q *rtmp2MpegtsFilter) Push(msg base.RtmpMsg) {
 	}
 }
 
+// Flush
+//
+// 输入结束时调用。如果还处于缓存探测阶段，将已缓存的数据吐出来，否则这些数据将永远不会被输出
+func (q *rtmp2MpegtsFilter) Flush() {
+	if q.done || len(q.data) == 0 {
+		return
+	}
+	if q.videoCodecId == -1 && q.audioCodecId == -1 {
+		return
+	}
+	q.drain()
+}
+
 // ---------------------------------------------------------------------------------------------------------------------
 
 func (q *rtmp2MpegtsFilter) drain() {
